@@ -34,4 +34,47 @@ func init() {
 			}
 		},
 	})
+	register(&PropSpec{
+		ID: "C09", Level: "fault_enumeration",
+		Rule:        "round trip: random records written through dataStore.AppendRecord+flush and DataStreamWriter, file bytes compared with the reference encoder, then positional and sequential reads; corruption campaign: for every file image <= 4 KB every byte position x {bit flip, 0x00, 0xff} and truncation at every length, sampled positions for larger images, multi-byte damage, zeroed blocks, and ksz/vsz size-field damage (0, 251, +-1, beyond EOF, body_max, > body_max); the reference decoder labels each original record intact/damaged; distinct = (corruption kind x damaged field) classes and record layout classes observed",
+		Assumptions: []string{"ref/record.go encodes the documented beansdb record layout", "a 32-bit CRC collision on random damage (2^-32) is not expected within the run"},
+		Plan: func(tier string, seed uint64) []Job {
+			var jobs []Job
+			n, files, per := 14, 1, 24
+			if tier == "thorough" {
+				n, files, per = 28, 16, 100
+			}
+			for i := 0; i < n; i++ {
+				inC := 0
+				if i%2 == 1 {
+					inC = 4096
+				}
+				jobs = append(jobs, Job{Variant: "plain", Mode: "store.c09", Args: js(map[string]interface{}{"RoundTrips": 30, "Files": files, "MaxRecs": 50, "PerFile": per, "BodyInC": inC})})
+			}
+			asan := 2
+			if tier == "thorough" {
+				asan = 8
+			}
+			for i := 0; i < asan; i++ {
+				jobs = append(jobs, Job{Variant: "asan", Mode: "store.c09", Args: js(map[string]interface{}{"RoundTrips": 10, "Files": 2, "MaxRecs": 20, "PerFile": 20, "BodyInC": 0})})
+			}
+			return jobs
+		},
+	})
+	register(&PropSpec{
+		ID: "C14", Level: "exploration",
+		Rule:        "generated hint item multisets (0..5000 items, key lengths 1..250, hashes incl. 0 and 2^64-1, dense/clustered hashes, same-hash groups, re-sets) written through HintBuffer.Dump and hintFileWriter with index intervals 64..4K; oracles: store reader vs expectation, independent parser of the file bytes, every sparse-index entry points at an item, lookups of present keys and of absent keys (below/between/same-hash-other-key/above/0/max) through loadHintIndex and the in-memory index, k-way merge (1..8 sources, some empty) vs reference merge and collision table; distinct = (item-count class x index-size class x writer) and (absent-lookup kind x index class) and merge shape signatures",
+		Assumptions: []string{"ref/hint.go decodes the hint layout as documented in store/hintfile.go comments and constants"},
+		Plan: func(tier string, seed uint64) []Job {
+			n, cases := 14, 24
+			if tier == "thorough" {
+				n, cases = 56, 400
+			}
+			var jobs []Job
+			for i := 0; i < n; i++ {
+				jobs = append(jobs, Job{Variant: "plain", Mode: "store.c14", Args: js(map[string]interface{}{"Cases": cases, "MaxItems": 5000})})
+			}
+			return jobs
+		},
+	})
 }
